@@ -1,5 +1,7 @@
 import RaftModel.Driver.Inflights
 import RaftModel.Driver.Proto
+import RaftModel.Driver.Quorum
+import RaftModel.Driver.ConfChange
 
 /-
 `rvm` — the model side of the correspondence check.
@@ -14,6 +16,7 @@ open RaftModel RaftModel.Driver
 structure DState where
   inf : Option Inflights := none
   p : Option RaftModel.P.PSys := none
+  cc : Option Tracker := none
   lines : Nat := 0
   compared : Nat := 0
   mismatches : Nat := 0
@@ -33,6 +36,8 @@ def dispatch (st : DState) (comp : String) (cmd : List String) : DState × Strin
   match comp with
   | "inf" => let (s, o) := handleInf st.inf cmd; ({ st with inf := s }, o)
   | "p" => let (s, o) := handleP st.p cmd; ({ st with p := s }, o)
+  | "q" => (st, handleQuorum cmd)
+  | "cc" => let (s, o) := handleCc st.cc cmd; ({ st with cc := s }, o)
   | _ => (st, "bad-op")
 
 /-- after a disagreement the component's sequence is abandoned until its next `new` -/
@@ -40,6 +45,7 @@ def abandon (st : DState) (comp : String) : DState :=
   match comp with
   | "inf" => { st with inf := none }
   | "p" => { st with p := none }
+  | "cc" => { st with cc := none }
   | _ => st
 
 def stepLine (st : DState) (line : String) : DState × Option String :=
